@@ -1,5 +1,6 @@
 import J5V.Rules.ProofsC04
 import J5V.Rules.Root
+import J5V.Rules.SrcFacts
 /-!
 # C04 — schema read back from compiled proto equals the j5s source schema
 
@@ -349,5 +350,71 @@ example : normField {
     schema := .single (.integer .i32 (some { maximum := some 10, exclusiveMaximum := some false }) none) }
     = { name := "i", number := 2, schema := .single (.integer .i32 (some { maximum := some 10 }) none) } := by
   decide
+
+/-! ## Source-fact obligations (regenerated by `extract/rules.go` on every check)
+
+`J5V/Generated/RulesFacts.lean` lists, per branch of the writer (`buildProperty` / `buildField`,
+internal/j5s/j5convert/fields.go) and of the reader (lib/j5schema/schema_from_proto.go), what is
+read and every copy `(target, source, text, guards)`. The hand-written side — which option field
+carries which schema field and where the reader picks it up again — is `J5V/Rules/SrcFacts.lean`.
+A new / renamed / dropped field, a changed guard or an unrecognised construct produces a text the
+tables do not contain, and the obligation fails. -/
+section Src
+open J5V.Rules.Src
+set_option maxRecDepth 100000
+
+/-- every member of the `schema.Field.type` oneof has a branch in the writer (`buildField`, or
+`buildProperty` for array / map) and a producer in the reader; both writer switches keep their
+error `default` -/
+theorem C04_src_branches :
+    everyMemberHasWriterBranch = true ∧ everyMemberHasReaderProducer = true ∧ writerDefaultsPresent = true := by
+  decide
+
+/-- every field of every j5 field message (and of its `Rules` message) is read by the writer's
+branch for that kind, except the explicit list `schemaExceptions` -/
+theorem C04_src_schema_fields_read : everySchemaFieldIsReadOrListed = true := by decide
+
+/-- … and that list is exact: each listed field exists and is not read (repairing one of them has
+to shorten the list). Its open-finding part is `StringField.format` (`schema-diff:str:sfmt:dropped`
+and its array / map variants); the other entries are outside the property, with the reason given. -/
+theorem C04_src_exceptions_exact :
+    exceptionsAreExact = true ∧ openSchemaExceptions = [("StringField", "Format")] := by decide
+
+/-- every option field the writer fills from the declared schema is a slot of the table (a new
+copy needs a reader slot), and no table row is stale -/
+theorem C04_src_writer_copies_have_slots : everyWriterCopyHasSlot = true ∧ everySlotIsWritten = true := by
+  decide
+
+/-- every slot is read back by the reader from that very option field into the paired schema
+field (for enum in / notIn: under the guard on that option field); every field of a typed `Ext`
+message copied by `setJ5Ext` is read back from `(j5.ext.v1.field).<member>` -/
+theorem C04_src_slots_read_back : everySlotIsReadBack = true ∧ everyExtFieldIsReadBack = true := by decide
+
+/-- the two container branches — and no other branch — set a member of `(j5.ext.v1.field)` around
+an item built by `buildField`: `array` replaces the item's annotation on the same field (open
+findings `…:array:…`), `map` annotates the map field while the item's annotations stay on the
+entry's value field, which no reader consults (open findings `…:map:…`). A third wrapper, or a
+repair that moves the item annotation elsewhere, changes this list. -/
+theorem C04_src_container_annotations :
+    containerExtCalls = [("buildProperty/Field_Map", "setJ5Ext(\"map\")"),
+                         ("buildProperty/Field_Array", "setJ5Ext(\"array\")")] := by decide
+
+/-- the reader inverts the writer's inclusivity table exactly as `readIntRules` does: per integer
+format and per member of `less_than` / `greater_than`, the bound is read from that member, and the
+exclusive flag is set (to true) in the `Lt` / `Gt` cases only -/
+theorem C04_src_reader_inclusivity : readerInclusivityMatchesModel = true := by decide
+
+/-- list rules: the member of `(j5.list.v1.field)` a key's list rules are written to, per key
+format, is the model's `keyListExt` (unique_string for no / informal / custom format, id62, uuid);
+float list rules go to `double` for FLOAT64 and to `float` otherwise; integer list rules to the
+member of their format -/
+theorem C04_src_list_slots : listSlotFacts = true := by decide
+
+/-- `Required` / `ExplicitlyOptional` are read as the model's `readField` reads them (array and map
+properties: `(buf.validate.field).required` only), and every property builder names the property
+by `json_name` (`C04_reader_uses_json_name`) -/
+theorem C04_src_required_and_names : readerRequiredFacts = true ∧ readerNameFacts = true := by decide
+
+end Src
 
 end J5V.Props.C04
